@@ -23,7 +23,9 @@ RULE = (
     "iterable and condition position and inside operator lambdas, target names colliding with live outer "
     "names; malformed comprehensions (tuple target, async); generated dataclass and NamedTuple classes "
     "(1-4 fields, with and without defaults) called with every positional/keyword split, keyword order, "
-    "unknown and surplus arguments, nested in lambdas; non-trivial = contains a comprehension or a "
+    "unknown and surplus arguments, nested in lambdas; lambdas given as python callables in generated modules whose "
+    "comprehensions use loop variables spelled like captured names (closure cells, module globals, classes) with "
+    "the captured value mentioned in the iterable (harness/capture.py comp_template); non-trivial = contains a comprehension or a "
     "constructor call; distinct = distinct source text / call shape"
 )
 EXPLANATION = (
